@@ -23,9 +23,9 @@ func (*C15) Rule() string {
 }
 
 func (*C15) Plan(tier string) orch.Plan {
-	n := 240
+	n := 3000
 	if tier == "thorough" {
-		n = 30000
+		n = 300000
 	}
 	return orch.Plan{Episodes: n, Batch: 1}
 }
@@ -119,8 +119,11 @@ func (p *C15) Gen(seed uint64, i int, tier string) *scen.Scenario {
 		sc.Setup = append(sc.Setup, h, scen.Op{Op: "get_debug_mode"}, scen.Op{Op: "snap"})
 		handlers := []int{1}
 		nextH := 2
-		for k := r.Intn(5); k > 0; k-- {
+		for k := r.Intn(10); k > 0; k-- {
 			from := scen.Pick(r, handlers)
+			if r.Bool() {
+				from = handlers[len(handlers)-1-r.Intn(minInt(2, len(handlers)))] // grow deep chains and give deep handlers siblings
+			}
 			if r.Chance(2, 3) {
 				sc.Setup = append(sc.Setup, scen.Op{Op: "handler_with_attrs", L: from, R: nextH, Args: g.attrs(r.Range(1, 3))})
 			} else {
